@@ -1,10 +1,12 @@
 //! Independent reference implementations (no lopdf types in here).
+pub mod civil;
 pub mod cmap_ref;
 pub mod codecs;
 pub mod refwriter;
 pub mod robj;
 pub mod strictreader;
+pub mod tables;
 
 pub fn selftests() -> Vec<(&'static str, Result<(), String>)> {
-    vec![("codecs", codecs::selftest())]
+    vec![("codecs", codecs::selftest()), ("civil", civil::selftest())]
 }
